@@ -366,6 +366,19 @@ def run_rebuild(case):
                     break
         if case.get("nested_search"):     # the same directory is reachable through two search arguments
             sdirs = sdirs + [os.path.join(sdirs[0], d) for d in sorted(os.listdir(sdirs[0]))[:1]]
+        if case.get("hostile") and case.get("victims"):
+            # somebody else's file already sits where each escaping entry points: it must survive untouched
+            # (overwritten, truncated, deleted by a clean-up ... all show in the snapshot)
+            for ti, tree in enumerate(trees):
+                for fi, f in enumerate(tree["files"]):
+                    tp = os.path.normpath(dest_path(ti, f))
+                    inside = lambda p, d: p == d or p.startswith(d + os.sep)
+                    if inside(tp, sbx) and not inside(tp, dest) and not any(inside(tp, d) for d in sdirs) \
+                            and not os.path.lexists(tp) and not os.path.isfile(os.path.dirname(tp)):
+                        try:
+                            write_file(tp, b"somebody else's file %d/%d" % (ti, fi))
+                        except OSError:
+                            pass
         if not case.get("dest_absent"):     # (a link to a directory that does not exist yet would change its kind in the snapshot)
             os.symlink(dest, os.path.join(sbx, "destlink"))
         os.symlink(sdirs[0], os.path.join(sbx, "searchlink"))
